@@ -1,37 +1,162 @@
-//! C28 — outlines written by the real writer, read back from the bytes.
+//! C28 — outlines, destinations, named destinations and GoTo actions written by the real writer,
+//! read back from the bytes.
 //!
 //! Requests:
-//!   out  <npages> <forest> [<names>]   forest built with OutlineItem::add_child / OutlineTree::add_item
-//!   outb <npages> <forest> [<names>]   same forest built with OutlineBuilder (push_item/add_item/pop_item)
+//!   out  <npages> <forest> [<names> [<open>]]   forest built with OutlineItem::add_child / OutlineTree::add_item
+//!   outb <npages> <forest> [<names> [<open>]]   same forest built with OutlineBuilder (push_item/add_item/pop_item)
+//!   dst  <dest>                                 Destination::to_array, then Destination::from_array on it
+//!   dsta <elem>,<elem>,…                        Destination::from_array on an arbitrary array
 //! <forest>  item*            item = ('o'|'c') <tid> '.' <dest> '[' item* ']'   (`_` = no items)
-//! <dest>    `-` | <page><K>  K = F (Fit) | X (XYZ, all null) | H (FitH null) | B (FitB)
-//! <names>   `n<id>=<page>,…` named destinations (Document::set_named_destinations), optional
-//! title of an item = title_of(tid) (five shapes: plain, parentheses, backslash, UTF-8, unbalanced)
+//! <dest>    `-` | <page><K>[ '(' p ';' p … ')' ]
+//!           K = F Fit | X XYZ left top zoom | H FitH top | V FitV left | R FitR l b r t | B FitB
+//!               | G FitBH top | W FitBV left;   p = `n` (null) | integer, millionths of a unit
+//!           (no parentheses = all parameters null)
+//! <names>   `_` | <hex(name)>=<dest>,…   Document::set_named_destinations, insertion order
+//! <open>    `_` | G<dest>                Document::set_open_action(Action::goto(dest))
+//! <elem>    i<int> | r<millionths> | n<Name> | x (null) | R<objnum> | s (a string)
+//! title of an item = title_of(tid) (eight shapes, see below)
 //!
 //! Answer (ids relative to the outline root's object number):
 //!   `R:F<f>:L<l>:C<c>|<id>:P<parent>:p<prev>:n<next>:f<first>:l<last>:c<count>:t<titlehex>:d<dest>|…`
-//!   items sorted by id, `-` for an absent entry; then ` N:<name>=<page>/<K>,…` when names were given
-//!   `none` when the catalog has no /Outlines.
+//!   items sorted by id, `-` for an absent entry; `none` when the catalog has no /Outlines;
+//!   with names: ` N:<hex>=<dest>,…` (the written /Names array in order) ` L:<hexmin>,<hexmax>`
+//!   (/Limits) ` G:<dest>,…` (NamedDestinations::get_destination for every authored name in order
+//!   of first appearance, then for a name that was never added; `~` = None);
+//!   with an open action: ` A:<S>/<dest>`.
+//!   written <dest> = `<page>/<Kind>(<p>;…)`, p = `null` | millionths; page `r<n>` for a reference
 use oxiharness::*;
-use oxidize_pdf::structure::{Destination, NamedDestinations, OutlineBuilder, OutlineItem, OutlineTree, PageDestination};
+use oxidize_pdf::actions::Action;
+use oxidize_pdf::geometry::{Point, Rectangle};
+use oxidize_pdf::objects::{Array, Object, ObjectId};
+use oxidize_pdf::structure::{
+    Destination, DestinationType, NamedDestinations, OutlineBuilder, OutlineItem, OutlineTree, PageDestination,
+};
 use oxidize_pdf::{Document, Page};
 use std::collections::BTreeMap;
+
+#[derive(Clone, Debug, PartialEq)]
+struct D {
+    page: u32,
+    kind: char,
+    params: Vec<Option<i64>>,
+}
 
 #[derive(Clone, Debug)]
 struct It {
     open: bool,
     tid: u32,
-    dest: Option<(u32, char)>,
+    dest: Option<D>,
     kids: Vec<It>,
 }
 
 fn title_of(tid: u32) -> String {
-    match tid % 5 {
+    match tid % 8 {
         0 => format!("T{}", tid),
         1 => format!("Sec ({})", tid),
         2 => format!("B\\{}", tid),
-        3 => format!("Ü{}", tid),
-        _ => format!("{})(", tid),
+        3 => format!("Ü\u{1F600}{}", tid),
+        4 => format!("{})(", tid),
+        5 => format!("{}\r\n\tx\r", tid),
+        6 => String::new(),
+        _ => format!("L{}#/<>[]{{}}%\\){}", tid, "x".repeat(120)),
+    }
+}
+
+fn arity(k: char) -> Option<usize> {
+    Some(match k {
+        'F' | 'B' => 0,
+        'X' => 3,
+        'H' | 'V' | 'G' | 'W' => 1,
+        'R' => 4,
+        _ => return None,
+    })
+}
+
+fn num(s: &[u8], i: &mut usize) -> Option<i64> {
+    let st = *i;
+    if s.get(*i) == Some(&b'-') {
+        *i += 1;
+    }
+    let d0 = *i;
+    while *i < s.len() && s[*i].is_ascii_digit() {
+        *i += 1;
+    }
+    if *i == d0 {
+        return None;
+    }
+    std::str::from_utf8(&s[st..*i]).ok()?.parse().ok()
+}
+
+/// `-` → Some(None); a destination → Some(Some(d))
+fn parse_dest(s: &[u8], i: &mut usize) -> Option<Option<D>> {
+    if s.get(*i) == Some(&b'-') {
+        *i += 1;
+        return Some(None);
+    }
+    let d0 = *i;
+    while *i < s.len() && s[*i].is_ascii_digit() {
+        *i += 1;
+    }
+    if *i == d0 {
+        return None;
+    }
+    let page: u32 = std::str::from_utf8(&s[d0..*i]).ok()?.parse().ok()?;
+    let kind = *s.get(*i)? as char;
+    let n = arity(kind)?;
+    *i += 1;
+    let mut params = vec![];
+    if s.get(*i) == Some(&b'(') {
+        *i += 1;
+        loop {
+            if s.get(*i) == Some(&b'n') {
+                *i += 1;
+                params.push(None);
+            } else {
+                params.push(Some(num(s, i)?));
+            }
+            match s.get(*i)? {
+                b';' => *i += 1,
+                b')' => {
+                    *i += 1;
+                    break;
+                }
+                _ => return None,
+            }
+        }
+        if params.len() != n {
+            return None;
+        }
+    } else {
+        params = vec![None; n];
+    }
+    if kind == 'R' && params.iter().any(|p| p.is_none()) {
+        return None;
+    }
+    Some(Some(D { page, kind, params }))
+}
+
+fn parse_dest_str(s: &str) -> Option<Option<D>> {
+    let b = s.as_bytes();
+    let mut i = 0;
+    let d = parse_dest(b, &mut i)?;
+    if i == b.len() {
+        Some(d)
+    } else {
+        None
+    }
+}
+
+fn show_dest_req(d: &Option<D>) -> String {
+    match d {
+        None => "-".into(),
+        Some(d) => {
+            let mut s = format!("{}{}", d.page, d.kind);
+            if d.params.iter().any(|p| p.is_some()) {
+                let ps: Vec<String> = d.params.iter().map(|p| p.map(|v| v.to_string()).unwrap_or("n".into())).collect();
+                s.push_str(&format!("({})", ps.join(";")));
+            }
+            s
+        }
     }
 }
 
@@ -40,35 +165,16 @@ fn parse_items(s: &[u8], i: &mut usize) -> Option<Vec<It>> {
     while *i < s.len() && (s[*i] == b'o' || s[*i] == b'c') {
         let open = s[*i] == b'o';
         *i += 1;
-        let mut tid = 0u32;
-        let mut any = false;
+        let d0 = *i;
         while *i < s.len() && s[*i].is_ascii_digit() {
-            tid = tid.checked_mul(10)?.checked_add((s[*i] - b'0') as u32)?;
             *i += 1;
-            any = true;
         }
-        if !any || *i >= s.len() || s[*i] != b'.' {
+        if *i == d0 || s.get(*i) != Some(&b'.') {
             return None;
         }
+        let tid: u32 = std::str::from_utf8(&s[d0..*i]).ok()?.parse().ok()?;
         *i += 1;
-        let dest = if s.get(*i) == Some(&b'-') {
-            *i += 1;
-            None
-        } else {
-            let mut p = 0u32;
-            let mut any = false;
-            while *i < s.len() && s[*i].is_ascii_digit() {
-                p = p.checked_mul(10)?.checked_add((s[*i] - b'0') as u32)?;
-                *i += 1;
-                any = true;
-            }
-            let k = *s.get(*i)? as char;
-            if !any || !"FXHB".contains(k) {
-                return None;
-            }
-            *i += 1;
-            Some((p, k))
-        };
+        let dest = parse_dest(s, i)?;
         if s.get(*i) != Some(&b'[') {
             return None;
         }
@@ -97,20 +203,35 @@ fn parse_forest(s: &str) -> Option<Vec<It>> {
     }
 }
 
-fn mk_dest(p: u32, k: char) -> Destination {
-    let page = PageDestination::PageNumber(p);
-    match k {
+fn fl(p: Option<i64>) -> Option<f64> {
+    p.map(|m| m as f64 / 1_000_000.0)
+}
+
+fn mk_dest(d: &D) -> Destination {
+    let page = PageDestination::PageNumber(d.page);
+    let p = &d.params;
+    match d.kind {
         'F' => Destination::fit(page),
-        'X' => Destination::xyz(page, None, None, None),
-        'H' => Destination::fit_h(page, None),
-        _ => Destination::fit_b(page),
+        'X' => Destination::xyz(page, fl(p[0]), fl(p[1]), fl(p[2])),
+        'H' => Destination::fit_h(page, fl(p[0])),
+        'V' => Destination::fit_v(page, fl(p[0])),
+        'R' => Destination::fit_r(
+            page,
+            Rectangle::new(
+                Point::new(fl(p[0]).unwrap_or(0.0), fl(p[1]).unwrap_or(0.0)),
+                Point::new(fl(p[2]).unwrap_or(0.0), fl(p[3]).unwrap_or(0.0)),
+            ),
+        ),
+        'B' => Destination::fit_b(page),
+        'G' => Destination::fit_bh(page, fl(p[0])),
+        _ => Destination::fit_bv(page, fl(p[0])),
     }
 }
 
 fn bare(it: &It) -> OutlineItem {
     let mut o = OutlineItem::new(title_of(it.tid));
-    if let Some((p, k)) = it.dest {
-        o = o.with_destination(mk_dest(p, k));
+    if let Some(d) = &it.dest {
+        o = o.with_destination(mk_dest(d));
     }
     if !it.open {
         o = o.closed();
@@ -143,7 +264,7 @@ fn with_builder(b: &mut OutlineBuilder, it: &It) {
 #[derive(Debug, Clone)]
 enum V {
     Int(i64),
-    Real,
+    Real(String),
     Name(String),
     Str(Vec<u8>),
     Ref(u32),
@@ -307,7 +428,7 @@ impl<'a> P<'a> {
                 if let Ok(i) = w.parse::<i64>() {
                     Some(V::Int(i))
                 } else if w.parse::<f64>().is_ok() {
-                    Some(V::Real)
+                    Some(V::Real(w))
                 } else {
                     Some(V::Kw(w))
                 }
@@ -357,8 +478,31 @@ fn scan_objects(bytes: &[u8]) -> BTreeMap<u32, Vec<(String, V)>> {
     objs
 }
 
+
 fn get<'a>(d: &'a [(String, V)], k: &str) -> Option<&'a V> {
     d.iter().find(|(kk, _)| kk == k).map(|(_, v)| v)
+}
+
+/// decimal text → millionths, exactly (no floating point); `None` for exponents / > 6 decimals
+fn micro_of_text(t: &str) -> Option<i64> {
+    let (neg, t) = match t.strip_prefix('-') {
+        Some(r) => (true, r),
+        None => (false, t.strip_prefix('+').unwrap_or(t)),
+    };
+    let (ip, fp) = match t.split_once('.') {
+        Some((a, b)) => (a, b),
+        None => (t, ""),
+    };
+    if (ip.is_empty() && fp.is_empty()) || fp.len() > 6 || !ip.bytes().all(|c| c.is_ascii_digit()) || !fp.bytes().all(|c| c.is_ascii_digit()) {
+        return None;
+    }
+    let i: i64 = if ip.is_empty() { 0 } else { ip.parse().ok()? };
+    let mut f: i64 = if fp.is_empty() { 0 } else { fp.parse().ok()? };
+    for _ in fp.len()..6 {
+        f *= 10;
+    }
+    let v = i.checked_mul(1_000_000)?.checked_add(f)?;
+    Some(if neg { -v } else { v })
 }
 
 fn show_dest(v: Option<&V>) -> String {
@@ -374,20 +518,126 @@ fn show_dest(v: Option<&V>) -> String {
                 Some(V::Name(n)) => n.clone(),
                 _ => "?".into(),
             };
-            let rest_null = a.iter().skip(2).all(|x| matches!(x, V::Kw(k) if k == "null"));
-            format!("{}/{}{}", page, kind, if rest_null { "" } else { "+" })
+            let ps: Vec<String> = a
+                .iter()
+                .skip(2)
+                .map(|x| match x {
+                    V::Kw(k) if k == "null" => "null".to_string(),
+                    V::Int(i) => i.checked_mul(1_000_000).map(|m| m.to_string()).unwrap_or("?".into()),
+                    V::Real(t) => micro_of_text(t).map(|m| m.to_string()).unwrap_or("?".into()),
+                    _ => "?".into(),
+                })
+                .collect();
+            format!("{}/{}({})", page, kind, ps.join(";"))
         }
         _ => "?".into(),
     }
 }
 
+/// the same rendering for an `Array` held by the library (API answers)
+fn show_dest_obj(a: &Array) -> String {
+    let page = match a.get(0) {
+        Some(Object::Integer(i)) => i.to_string(),
+        Some(Object::Reference(r)) => format!("r{}", r.number()),
+        _ => "?".into(),
+    };
+    let kind = match a.get(1) {
+        Some(Object::Name(n)) => n.clone(),
+        _ => "?".into(),
+    };
+    let ps: Vec<String> = (2..a.len())
+        .map(|i| match a.get(i) {
+            Some(Object::Null) => "null".to_string(),
+            Some(Object::Integer(i)) => (i * 1_000_000).to_string(),
+            Some(Object::Real(f)) => ((f * 1_000_000.0).round() as i64).to_string(),
+            _ => "?".into(),
+        })
+        .collect();
+    format!("{}/{}({})", page, kind, ps.join(";"))
+}
+
+/// a `Destination` held by the library, in request syntax
+fn show_dest_value(d: &Destination) -> String {
+    let m = |f: &Option<f64>| f.map(|v| (v * 1_000_000.0).round() as i64);
+    let page = match &d.page {
+        PageDestination::PageNumber(n) => n.to_string(),
+        PageDestination::PageRef(r) => format!("r{}", r.number()),
+    };
+    let (k, ps): (char, Vec<Option<i64>>) = match &d.dest_type {
+        DestinationType::XYZ { left, top, zoom } => ('X', vec![m(left), m(top), m(zoom)]),
+        DestinationType::Fit => ('F', vec![]),
+        DestinationType::FitH { top } => ('H', vec![m(top)]),
+        DestinationType::FitV { left } => ('V', vec![m(left)]),
+        DestinationType::FitR { rect } => (
+            'R',
+            vec![m(&Some(rect.lower_left.x)), m(&Some(rect.lower_left.y)), m(&Some(rect.upper_right.x)), m(&Some(rect.upper_right.y))],
+        ),
+        DestinationType::FitB => ('B', vec![]),
+        DestinationType::FitBH { top } => ('G', vec![m(top)]),
+        DestinationType::FitBV { left } => ('W', vec![m(left)]),
+    };
+    let ps: Vec<String> = ps.iter().map(|p| p.map(|v| v.to_string()).unwrap_or("n".into())).collect();
+    format!("{}{}({})", page, k, ps.join(";"))
+}
+
+fn parse_elem(e: &str) -> Option<Object> {
+    if e == "x" {
+        return Some(Object::Null);
+    }
+    if e == "s" {
+        return Some(Object::String("Fit".into()));
+    }
+    let (h, r) = e.split_at(1);
+    match h {
+        "i" => Some(Object::Integer(r.parse().ok()?)),
+        "r" => Some(Object::Real(r.parse::<i64>().ok()? as f64 / 1_000_000.0)),
+        "n" => Some(Object::Name(r.to_string())),
+        "R" => Some(Object::Reference(ObjectId::new(r.parse().ok()?, 0))),
+        _ => None,
+    }
+}
+
+fn run_dst(parts: &[&str]) -> String {
+    match parts {
+        ["dst", d] => {
+            let Some(Some(d)) = parse_dest_str(d) else { return "bad-request".into() };
+            let arr = mk_dest(&d).to_array();
+            let back = match Destination::from_array(&arr) {
+                Ok(d2) => format!("ok:{}", show_dest_value(&d2)),
+                Err(_) => "err".into(),
+            };
+            format!("{}|{}", show_dest_obj(&arr), back)
+        }
+        ["dsta", elems] => {
+            let mut arr = Array::new();
+            if *elems != "_" {
+                for e in elems.split(',') {
+                    let Some(o) = parse_elem(e) else { return "bad-request".into() };
+                    arr.push(o);
+                }
+            }
+            match Destination::from_array(&arr) {
+                Ok(d2) => format!("ok:{}", show_dest_value(&d2)),
+                Err(_) => "err".into(),
+            }
+        }
+        _ => "bad-request".into(),
+    }
+}
+
 fn run(req: &str) -> String {
     let parts: Vec<&str> = req.split(' ').collect();
-    let (op, npages, forest, names) = match parts.as_slice() {
-        [op @ ("out" | "outb"), np, f] => (*op, *np, *f, None),
-        [op @ ("out" | "outb"), np, f, n] => (*op, *np, *f, Some(*n)),
+    if matches!(parts.first(), Some(&"dst") | Some(&"dsta")) {
+        return run_dst(&parts);
+    }
+    let (op, npages, forest, names, open) = match parts.as_slice() {
+        [op @ ("out" | "outb"), np, f] => (*op, *np, *f, None, None),
+        [op @ ("out" | "outb"), np, f, n] => (*op, *np, *f, Some(*n), None),
+        [op @ ("out" | "outb"), np, f, n, a] => (*op, *np, *f, Some(*n), Some(*a)),
         _ => return "bad-request".into(),
     };
+    let names = names.filter(|n| *n != "_");
+    let open = open.filter(|n| *n != "_");
     let (Ok(npages), Some(items)) = (npages.parse::<usize>(), parse_forest(forest)) else { return "bad-request".into() };
     let mut doc = Document::new();
     for _ in 0..npages.max(1) {
@@ -407,14 +657,23 @@ fn run(req: &str) -> String {
         b.build()
     };
     doc.set_outline(tree);
+    let mut authored_names: Vec<String> = vec![];
     if let Some(ns) = names {
         let mut nd = NamedDestinations::new();
         for e in ns.split(',') {
-            let Some((n, p)) = e.split_once('=') else { return "bad-request".into() };
-            let Ok(p) = p.parse::<u32>() else { return "bad-request".into() };
-            nd.add_destination(n.to_string(), Destination::fit(PageDestination::PageNumber(p)).to_array());
+            let Some((n, d)) = e.split_once('=') else { return "bad-request".into() };
+            let Some(Ok(n)) = unhex(n).map(String::from_utf8) else { return "bad-request".into() };
+            let Some(Some(d)) = parse_dest_str(d) else { return "bad-request".into() };
+            if !authored_names.contains(&n) {
+                authored_names.push(n.clone());
+            }
+            nd.add_destination(n, mk_dest(&d).to_array());
         }
         doc.set_named_destinations(nd);
+    }
+    if let Some(a) = open {
+        let Some(Some(d)) = a.strip_prefix('G').and_then(parse_dest_str) else { return "bad-request".into() };
+        doc.set_open_action(Action::goto(mk_dest(&d)));
     }
     let cfg = oxidize_pdf::writer::WriterConfig {
         compress_streams: false,
@@ -487,12 +746,50 @@ fn run(req: &str) -> String {
         let mut ps = vec![];
         for pair in a.chunks(2) {
             let k = match pair.first() {
-                Some(V::Str(b)) => String::from_utf8_lossy(b).into_owned(),
+                Some(V::Str(b)) => hex(b),
                 _ => "?".into(),
             };
             ps.push(format!("{}={}", k, show_dest(pair.get(1))));
         }
-        ans.push_str(&format!(" N:{}", if ps.is_empty() { "-".to_string() } else { ps.join(",") }));
+        ans.push_str(&format!(" N:{}", if ps.is_empty() { "_".to_string() } else { ps.join(",") }));
+        let lim = match get(nd, "Limits") {
+            Some(V::Arr(l)) => match l.as_slice() {
+                [V::Str(a), V::Str(b)] => format!("{},{}", hex(a), hex(b)),
+                _ => "?".into(),
+            },
+            None => "~".into(),
+            _ => "?".into(),
+        };
+        ans.push_str(&format!(" L:{}", lim));
+        // the API's own lookup
+        let mut probe = "zz-missing".to_string();
+        while authored_names.contains(&probe) {
+            probe.push('z');
+        }
+        let nd = doc.named_destinations();
+        let mut gs = vec![];
+        for n in authored_names.iter().chain(std::iter::once(&probe)) {
+            gs.push(match nd.and_then(|t| t.get_destination(n)) {
+                Some(a) => show_dest_obj(&a),
+                None => "~".into(),
+            });
+        }
+        ans.push_str(&format!(" G:{}", gs.join(",")));
+    }
+    if open.is_some() {
+        let a = match get(cat, "OpenAction") {
+            Some(V::Dict(d)) => {
+                let s = match get(d, "S") {
+                    Some(V::Name(n)) => n.clone(),
+                    _ => "?".into(),
+                };
+                let ty = matches!(get(d, "Type"), Some(V::Name(n)) if n == "Action");
+                format!("{}{}/{}", s, if ty { "" } else { "!type" }, show_dest(get(d, "D")))
+            }
+            None => "~".into(),
+            _ => "?".into(),
+        };
+        ans.push_str(&format!(" A:{}", a));
     }
     ans
 }
@@ -509,13 +806,7 @@ fn show(items: &[It]) -> String {
             s.push(if it.open { 'o' } else { 'c' });
             s.push_str(&it.tid.to_string());
             s.push('.');
-            match it.dest {
-                None => s.push('-'),
-                Some((p, k)) => {
-                    s.push_str(&p.to_string());
-                    s.push(k);
-                }
-            }
+            s.push_str(&show_dest_req(&it.dest));
             s.push('[');
             go(&it.kids, s);
             s.push(']');
@@ -524,6 +815,28 @@ fn show(items: &[It]) -> String {
     let mut s = String::new();
     go(items, &mut s);
     s
+}
+
+/// parameter values in millionths: round numbers, fractions, negatives, zero, tiny, large
+fn gen_param(rng: &mut Rng) -> Option<i64> {
+    match rng.below(10) {
+        0 | 1 => None,
+        2 => Some(0),
+        3 => Some(rng.below(900) as i64 * 1_000_000),
+        4 => Some(rng.below(3600) as i64 * 250_000),
+        5 => Some(-(rng.below(500) as i64) * 500_000),
+        6 => Some(*rng.pick(&[1i64, -1, 999_999, 1_000_001, 500_000, 1_500_000, 123_456, -123_456, 841_889_764])),
+        7 => Some(rng.range(-2_000_000_000, 2_000_000_000)),
+        8 => Some(rng.below(14400) as i64 * 1_000_000),
+        _ => Some(rng.below(1_000_000) as i64),
+    }
+}
+
+fn gen_dest(rng: &mut Rng, npages: u32) -> D {
+    let kind = *rng.pick(&['F', 'F', 'X', 'X', 'X', 'H', 'V', 'R', 'B', 'G', 'W']);
+    let n = arity(kind).unwrap();
+    let params = (0..n).map(|_| if kind == 'R' { Some(gen_param(rng).unwrap_or(0)) } else { gen_param(rng) }).collect();
+    D { page: rng.below(npages as u64) as u32, kind, params }
 }
 
 struct Ctx {
@@ -542,11 +855,7 @@ fn gen_items(rng: &mut Rng, cx: &mut Ctx, depth: u32, max_depth: u32, max_width:
         cx.budget -= 1;
         let tid = cx.next_tid;
         cx.next_tid += 1;
-        let dest = if rng.chance(2, 3) {
-            Some((rng.below(cx.npages as u64) as u32, *rng.pick(&['F', 'F', 'X', 'H', 'B'])))
-        } else {
-            None
-        };
+        let dest = if rng.chance(2, 3) { Some(gen_dest(rng, cx.npages)) } else { None };
         let open = !rng.chance(p_closed, 10);
         let kids = if depth < max_depth && rng.chance(p_branch, 10) {
             gen_items(rng, cx, depth + 1, max_depth, max_width, p_closed, p_branch)
@@ -584,13 +893,24 @@ fn relabel(items: &mut [It], next: &mut u32, flags: &mut u64, npages: u32) {
         *next += 1;
         it.open = *flags & 1 == 0;
         *flags >>= 1;
-        it.dest = if it.tid % 3 == 2 { None } else { Some((it.tid % npages, ['F', 'X', 'H', 'B'][(it.tid % 4) as usize])) };
+        it.dest = if it.tid % 3 == 2 {
+            None
+        } else {
+            let kind = ['F', 'X', 'H', 'B', 'V', 'G', 'W', 'R'][(it.tid % 8) as usize];
+            let n = arity(kind).unwrap();
+            let params = (0..n).map(|j| if kind == 'R' || (it.tid + j as u32) % 2 == 0 { Some((it.tid as i64 + j as i64) * 250_000) } else { None }).collect();
+            Some(D { page: it.tid % npages, kind, params })
+        };
         relabel(&mut it.kids, next, flags, npages);
     }
 }
 
 fn count(items: &[It]) -> usize {
     items.iter().map(|i| 1 + count(&i.kids)).sum()
+}
+
+fn depth_of(items: &[It]) -> usize {
+    items.iter().map(|i| 1 + depth_of(&i.kids)).max().unwrap_or(0)
 }
 
 fn non_last_branches(items: &[It]) -> bool {
@@ -606,7 +926,9 @@ fn closed_over_closed(items: &[It], under_closed: bool) -> bool {
 
 fn tags(kind: &str, items: &[It]) -> String {
     let n = count(items);
-    let mut t = format!("{} n{}", kind, if n < 8 { n.to_string() } else { format!("{}+", (n / 8) * 8) });
+    let mut t = format!("{} n{}", kind, if n < 8 { n.to_string() } else if n < 100 { format!("{}+", (n / 8) * 8) } else { "100+".into() });
+    let d = depth_of(items);
+    t.push_str(&format!(" depth{}", if d < 6 { d.to_string() } else { "6+".into() }));
     if non_last_branches(items) {
         t.push_str(" nonlast-branch");
     } else {
@@ -622,13 +944,123 @@ fn tags(kind: &str, items: &[It]) -> String {
     t
 }
 
+const NAMES: [&str; 24] = [
+    "a", "B", "ch1", "ch10", "ch2", "Z", "intro", "Intro", "", " ", "a b", "(x)", ")(", "back\\slash", "cr\rlf\n", "Ünï", "ñ", "é",
+    "日本", "~", "a\u{0}b", "#hash/%", "aa", "\u{10000}",
+];
+
+fn gen_names(rng: &mut Rng, npages: u32) -> String {
+    let k = match rng.below(6) {
+        0 => 1,
+        1 | 2 => 2 + rng.below(3),
+        3 | 4 => 4 + rng.below(6),
+        _ => 12 + rng.below(30),
+    };
+    let v: Vec<String> = (0..k)
+        .map(|_| {
+            let n = if rng.chance(1, 5) { format!("k{}", rng.below(40)) } else { rng.pick(&NAMES).to_string() };
+            format!("{}={}", hex(n.as_bytes()), show_dest_req(&Some(gen_dest(rng, npages))))
+        })
+        .collect();
+    v.join(",")
+}
+
+fn leaf(tid: u32, rng: &mut Rng, npages: u32) -> It {
+    It { open: !rng.chance(1, 4), tid, dest: if rng.chance(1, 2) { Some(gen_dest(rng, npages)) } else { None }, kids: vec![] }
+}
+
+/// large forests (> 100 items): wide, deep, left-heavy, right-heavy, bushy
+fn gen_large(rng: &mut Rng, shape: u64) -> Vec<It> {
+    let npages = 4;
+    let mut tid = rng.below(500) as u32;
+    let mut nt = || {
+        tid += 1;
+        tid
+    };
+    match shape {
+        // wide: many roots, every third one with a few children (branching non-last siblings)
+        0 => (0..120 + rng.below(60))
+            .map(|i| {
+                let mut it = leaf(nt(), rng, npages);
+                if i % 3 == 0 {
+                    it.kids = (0..1 + rng.below(3)).map(|_| leaf(nt(), rng, npages)).collect();
+                }
+                it
+            })
+            .collect(),
+        // left-heavy: the first sibling of every level carries the deep part, followed by leaves
+        1 => {
+            let mut cur: Vec<It> = (0..3).map(|_| leaf(nt(), rng, npages)).collect();
+            for _ in 0..40 + rng.below(20) {
+                let mut head = leaf(nt(), rng, npages);
+                head.kids = cur;
+                cur = vec![head];
+                for _ in 0..1 + rng.below(3) {
+                    cur.push(leaf(nt(), rng, npages));
+                }
+            }
+            cur
+        }
+        // right-heavy: the last sibling carries the deep part (the shape the old code got right)
+        2 => {
+            let mut cur: Vec<It> = (0..3).map(|_| leaf(nt(), rng, npages)).collect();
+            for _ in 0..40 + rng.below(20) {
+                let mut tail = leaf(nt(), rng, npages);
+                tail.kids = cur;
+                cur = (0..1 + rng.below(3)).map(|_| leaf(nt(), rng, npages)).collect();
+                cur.push(tail);
+            }
+            cur
+        }
+        // bushy: complete-ish tree, width 3..4, depth 4
+        3 => {
+            fn bush(d: u32, rng: &mut Rng, nt: &mut dyn FnMut() -> u32) -> Vec<It> {
+                (0..3 + rng.below(2))
+                    .map(|_| {
+                        let mut it = leaf(nt(), rng, 4);
+                        if d > 0 && rng.chance(4, 5) {
+                            it.kids = bush(d - 1, rng, nt);
+                        }
+                        it
+                    })
+                    .collect()
+            }
+            bush(3, rng, &mut nt)
+        }
+        // middle-heavy: in every sibling list a middle item branches
+        _ => {
+            let mut cur: Vec<It> = (0..2).map(|_| leaf(nt(), rng, npages)).collect();
+            for _ in 0..35 + rng.below(20) {
+                let mut mid = leaf(nt(), rng, npages);
+                mid.kids = cur;
+                cur = vec![leaf(nt(), rng, npages), mid, leaf(nt(), rng, npages)];
+            }
+            cur
+        }
+    }
+}
+
+fn gen_elem(rng: &mut Rng, pos: usize) -> String {
+    match (pos, rng.below(10)) {
+        (0, 0..=5) => format!("i{}", rng.below(30)),
+        (0, 6) => format!("i{}", *rng.pick(&[-1i64, 4294967295, 4294967296, 4294967301, -4294967295, i64::MAX, i64::MIN])),
+        (0, 7) => format!("R{}", 1 + rng.below(50)),
+        (1, 0..=7) => format!("n{}", rng.pick(&["XYZ", "Fit", "FitH", "FitV", "FitR", "FitB", "FitBH", "FitBV", "fit", "FitX", "XYZ", "FitR"])),
+        (p, 0..=4) if p >= 2 => format!("r{}", rng.range(-5_000_000, 900_000_000)),
+        (p, 5) if p >= 2 => format!("i{}", rng.range(-50, 1000)),
+        (p, 6 | 7) if p >= 2 => "x".into(),
+        _ => rng.pick(&["x", "s", "nFit", "i3", "r500000", "R7"]).to_string(),
+    }
+}
+
 fn gen(rng: &mut Rng, tier: Tier) -> Vec<Case> {
     let mut cases = vec![];
+    let quick = tier == Tier::Quick;
     // (1) every forest shape up to N items, with a few open/closed patterns each
-    let n = if tier == Tier::Quick { 5 } else { 7 };
+    let n = if quick { 5 } else { 7 };
     for (k, shape) in all_forests(n).into_iter().enumerate() {
         let total = count(&shape) as u32;
-        let patterns: Vec<u64> = if tier == Tier::Quick {
+        let patterns: Vec<u64> = if quick {
             vec![0, (1u64 << total) - 1, rng.next()]
         } else {
             vec![0, (1u64 << total) - 1, rng.next(), rng.next(), 0x5555_5555, 0xAAAA_AAAA]
@@ -642,8 +1074,8 @@ fn gen(rng: &mut Rng, tier: Tier) -> Vec<Case> {
             cases.push(Case::new(format!("{} 3 {}", op, show(&f)), tags("exh", &f)));
         }
     }
-    // (2) random larger forests
-    let n_rand = if tier == Tier::Quick { 500 } else { 6000 };
+    // (2) random larger forests, a third with named destinations, some with an open action
+    let n_rand = if quick { 500 } else { 6000 };
     for j in 0..n_rand {
         let npages = 1 + rng.below(6) as u32;
         let mut cx = Ctx { next_tid: rng.below(1000) as u32, npages, budget: 4 + rng.below(40) as usize };
@@ -653,25 +1085,71 @@ fn gen(rng: &mut Rng, tier: Tier) -> Vec<Case> {
         let p_branch = 2 + rng.below(7);
         let f = gen_items(rng, &mut cx, 0, max_depth, max_width, p_closed, p_branch);
         let op = if j % 4 == 0 { "outb" } else { "out" };
-        let names = if rng.chance(1, 3) {
-            let k = 1 + rng.below(5);
-            let v: Vec<String> = (0..k)
-                .map(|_| format!("{}={}", rng.pick(&["a", "B", "ch1", "ch10", "ch2", "Z", "intro", "Intro"]), rng.below(npages as u64)))
-                .collect();
-            format!(" {}", v.join(","))
-        } else {
-            String::new()
-        };
-        cases.push(Case::new(format!("{} {} {}{}", op, npages, show(&f), names), tags("rand", &f)));
+        let names = if rng.chance(1, 3) { gen_names(rng, npages) } else { "_".into() };
+        let open = if rng.chance(1, 4) { format!("G{}", show_dest_req(&Some(gen_dest(rng, npages)))) } else { "_".into() };
+        let mut t = tags("rand", &f);
+        if names != "_" {
+            t.push_str(" names");
+        }
+        if open != "_" {
+            t.push_str(" openaction");
+        }
+        let tail = if names == "_" && open == "_" { String::new() } else { format!(" {} {}", names, open) };
+        cases.push(Case::new(format!("{} {} {}{}", op, npages, show(&f), tail), t));
     }
-    // (3) deep chains and wide levels
-    for d in [10usize, 30, 80] {
+    // (3) deep chains (a leaf before the deep item at every level)
+    for d in [10usize, 30, 80, 200] {
         let mut it = It { open: true, tid: 1, dest: None, kids: vec![] };
         for k in 0..d {
-            it = It { open: k % 3 != 0, tid: k as u32 + 2, dest: Some((0, 'F')), kids: vec![It { open: true, tid: 900 + k as u32, dest: None, kids: vec![] }, it] };
+            it = It {
+                open: k % 3 != 0,
+                tid: k as u32 + 2,
+                dest: Some(D { page: 0, kind: 'F', params: vec![] }),
+                kids: vec![It { open: true, tid: 900 + k as u32, dest: None, kids: vec![] }, it],
+            };
         }
         let f = vec![it];
         cases.push(Case::new(format!("out 1 {}", show(&f)), tags("deep", &f)));
+    }
+    // (4) large forests (> 100 items) of five shapes, both build paths
+    for j in 0..(if quick { 15 } else { 150 }) {
+        let f = gen_large(rng, j % 5);
+        let op = if j % 2 == 0 { "out" } else { "outb" };
+        let names = if j % 3 == 0 { gen_names(rng, 4) } else { "_".into() };
+        let tail = if names == "_" { String::new() } else { format!(" {} _", names) };
+        cases.push(Case::new(format!("{} 4 {}{}", op, show(&f), tail), tags(["wide", "left-heavy", "right-heavy", "bushy", "middle-heavy"][(j % 5) as usize], &f)));
+    }
+    // (5) name trees on their own: many names, odd characters, repeated names
+    for _ in 0..(if quick { 120 } else { 1500 }) {
+        let npages = 1 + rng.below(5) as u32;
+        let names = gen_names(rng, npages);
+        let open = if rng.chance(1, 2) { format!("G{}", show_dest_req(&Some(gen_dest(rng, npages)))) } else { "_".into() };
+        cases.push(Case::new(format!("out {} o1.0F[] {} {}", npages, names, open), "names nt"));
+    }
+    // (6) destinations through to_array / from_array
+    for _ in 0..(if quick { 400 } else { 5000 }) {
+        let d = gen_dest(rng, 50);
+        cases.push(Case::new(format!("dst {}", show_dest_req(&Some(d.clone()))), format!("dst kind{}{}", d.kind, if d.params.iter().any(|p| p.is_some()) { " nt" } else { "" })));
+    }
+    for k in ['F', 'X', 'H', 'V', 'R', 'B', 'G', 'W'] {
+        let n = arity(k).unwrap();
+        let d = D { page: u32::MAX, kind: k, params: vec![Some(0); n] };
+        cases.push(Case::new(format!("dst {}", show_dest_req(&Some(d))), format!("dst kind{} boundary", k)));
+    }
+    // arbitrary arrays (malformed stream): wrong lengths, wrong types, unknown kinds
+    for _ in 0..(if quick { 600 } else { 8000 }) {
+        let len = match rng.below(8) {
+            0 => rng.below(2) as usize,
+            1 => 2,
+            2 => 3,
+            3 => 4,
+            4 => 5,
+            5 => 6,
+            _ => 2 + rng.below(6) as usize,
+        };
+        let elems: Vec<String> = (0..len).map(|p| gen_elem(rng, p)).collect();
+        let s = if elems.is_empty() { "_".to_string() } else { elems.join(",") };
+        cases.push(Case::new(format!("dsta {}", s), format!("dsta len{}{}", len, if len >= 2 { " nt" } else { "" })));
     }
     cases.push(Case::new("out 1 _", "empty"));
     cases
